@@ -35,10 +35,23 @@ impl<R: BlockRead + Unpin> RecordReader<R> {
     }
 
     /// Advance cursor and deserialize the next record.
+    #[cfg_attr(not(test), allow(dead_code))]
     pub fn read_record<'a, S: Serializable<'a>>(
         &'a mut self,
     ) -> Result<Option<S>, ReadRecordError> {
-        let has_record = self.go_next()?;
+        self.read_record_with(|_| ())
+    }
+
+    /// Advance cursor and deserialize the next record.
+    ///
+    /// `on_record_start` is called with the underlying reader each time the first frame of a
+    /// record has just been read: the reader is then positioned on the block (and file) this
+    /// record starts in.
+    pub fn read_record_with<'a, S: Serializable<'a>>(
+        &'a mut self,
+        on_record_start: impl FnMut(&R),
+    ) -> Result<Option<S>, ReadRecordError> {
+        let has_record = self.go_next_with(on_record_start)?;
         if has_record {
             let record = self.record().ok_or(ReadRecordError::Corruption)?;
             Ok(Some(record))
@@ -49,7 +62,10 @@ impl<R: BlockRead + Unpin> RecordReader<R> {
 
     // Attempts to position the reader to the next record and return
     // true or false whether such a record is available or not.
-    pub fn go_next(&mut self) -> Result<bool, ReadRecordError> {
+    fn go_next_with(
+        &mut self,
+        mut on_record_start: impl FnMut(&R),
+    ) -> Result<bool, ReadRecordError> {
         loop {
             let frame = self.frame_reader.read_frame();
             match frame {
@@ -60,6 +76,9 @@ impl<R: BlockRead + Unpin> RecordReader<R> {
                     }
                     if self.within_record {
                         self.record_buffer.extend_from_slice(frame_payload);
+                        if frame_type.is_first_frame_of_record() {
+                            on_record_start(self.frame_reader.read());
+                        }
                         if frame_type.is_last_frame_of_record() {
                             self.within_record = false;
                             return Ok(true);
